@@ -96,6 +96,8 @@ def _schedule(cases, jobs, deadline, verbose):
 
 def main(argv=None):
     global _CASES, _PROP
+    import warnings
+    warnings.filterwarnings('ignore')
     ap = argparse.ArgumentParser()
     ap.add_argument('prop')
     ap.add_argument('--tier', default=os.environ.get('VERIF_TIER', 'quick'), choices=['quick', 'thorough'])
